@@ -24,26 +24,31 @@ Finite(w) == BExp(w) # 2047
 Negative(t) == Len(t) > 0 /\ t[1] = CMinus
 
 (* ---- string -> number -> string ------------------------------------------------------------- *)
-SnChecks(ev) ==
-  LET E == SnExpect(ev.in)
-      num == IsNumber(ev.in)
-      m == IF num THEN Norm(Parse(ev.in)) ELSE [neg |-> FALSE, ip |-> <<>>, fp |-> <<>>]
-  IN << <<WellFormedBits(ev.bits) /\ WellFormedBits(ev.bits2), "malformed event">>,
+(* The numeral is analysed once: m = its normal form, x = whether it is a double, E = the expected *)
+(* string.  All delivered strings must be equal (SameOuts), so the predicates look at ev.out.      *)
+NoNumeral == [neg |-> FALSE, ip |-> <<>>, fp |-> <<>>]
+SnChecksM(ev, num, m, x, E) ==
+     << <<WellFormedBits(ev.bits) /\ WellFormedBits(ev.bits2), "malformed event">>,
         <<~num => BIsNaN(ev.bits), "number() of a non-number is not NaN">>,
         <<num => ~BIsNaN(ev.bits), "number() of a numeral is NaN">>,
         <<Has(ev, "bitsx") => (ev.bitsx = ev.bits \/ (BIsNaN(ev.bitsx) /\ BIsNaN(ev.bits))), "XPath number() differs from toDouble">>,
-        <<(num /\ IsExactDouble(m)) => ev.bits = BitsOf(m), "number() is not the double the numeral denotes">>,
+        <<x.exact => ev.bits = BitsOfX(m.neg, x), "number() is not the double the numeral denotes">>,
         <<(num /\ (IsZeroN(m) \/ Underflows(m))) => BIsZero(ev.bits), "number() of zero is not zero">>,
         <<(num /\ Overflows(m)) => (BIsInf(ev.bits) /\ BSign(ev.bits) = m.neg), "number() beyond the double range is not infinite">>,
         <<(num /\ ~IsZeroN(m) /\ InNormalRange(m)) => (Finite(ev.bits) /\ ~BIsZero(ev.bits) /\ BSign(ev.bits) = m.neg),
           "number() of a numeral in the normal range is zero, infinite or of the wrong sign">>,
-        <<E.k = "exact" => AllOuts(ev, LAMBDA o : o = E.str), "string(number(s)) is not the XPath string form">>,
-        <<E.k = "int15" => AllOuts(ev, LAMBDA o : AgreesTo15(o, E.str)), "string(number(s)) differs from s within 15 digits">>,
-        <<E.k = "loose" => AllOuts(ev, LAMBDA o : OutNumeral(o) /\ (o = StrZero \/ Negative(o) = E.neg)),
-          "string(number(s)) is outside the output grammar">>,
         <<SameOuts(ev), "conversion paths disagree">>,
+        <<E.k = "exact" => ev.out = E.str, "string(number(s)) is not the XPath string form">>,
+        <<E.k = "int15" => AgreesTo15(ev.out, E.str), "string(number(s)) differs from s within 15 digits">>,
+        <<E.k = "loose" => (OutNumeral(ev.out) /\ (ev.out = StrZero \/ Negative(ev.out) = E.neg)),
+          "string(number(s)) is outside the output grammar">>,
         <<(num /\ Finite(ev.bits) /\ ~(BIsZero(ev.bits) /\ BSign(ev.bits))) => ev.bits2 = ev.bits, "number(string(x)) is not x">>
      >>
+SnChecks(ev) ==
+  IF ~IsNumber(ev.in) THEN SnChecksM(ev, FALSE, NoNumeral, NotExact, [k |-> "exact", str |-> StrNaN])
+  ELSE LET m == Norm(Parse(ev.in))
+           x == ExactInfo(m)
+       IN SnChecksM(ev, TRUE, m, x, SnExpectM(m, x))
 
 (* ---- double -> string -> number ------------------------------------------------------------- *)
 NsChecks(ev) ==
@@ -79,30 +84,31 @@ FnChecksArg(ev) ==
         <<(f = "round" /\ a \in {"pzero", "nzero"}) => ZeroSign(ev, a = "nzero"), "round(zero) has the wrong sign">>
      >>
 
-FnChecksIn(ev) ==
-  LET f == ev.dir
-      num == IsNumber(ev.in)
-      m == IF num THEN Norm(Parse(ev.in)) ELSE [neg |-> FALSE, ip |-> <<>>, fp |-> <<>>]
-      zeroArg == num /\ (IsZeroN(m) \/ Underflows(m))
-      decided == num /\ ~zeroArg /\ ~Overflows(m) /\ RoundDecided(m)
+FnChecksM(ev, f, num, m, x, E) ==
+  LET zeroArg == num /\ (IsZeroN(m) \/ Underflows(m))
+      decided == num /\ ~zeroArg /\ ~Overflows(m) /\ RoundDecidedX(m, x)
       R == FnN(f, m)
-      E == SnExpect(ev.in)
-  IN << <<~num => (BIsNaN(ev.rbits) /\ AllOuts(ev, LAMBDA o : o = StrNaN)), "f(NaN) is not NaN">>,
-        <<(num /\ Overflows(m)) => AllOuts(ev, LAMBDA o : o = InfStr(m.neg)), "f(infinity) is not that infinity">>,
-        <<zeroArg => (BIsZero(ev.rbits) /\ AllOuts(ev, LAMBDA o : o = StrZero)), "f(zero) is not zero">>,
+  IN << <<SameOuts(ev), "conversion paths disagree">>,
+        <<~num => (BIsNaN(ev.rbits) /\ ev.out = StrNaN), "f(NaN) is not NaN">>,
+        <<(num /\ Overflows(m)) => ev.out = InfStr(m.neg), "f(infinity) is not that infinity">>,
+        <<zeroArg => (BIsZero(ev.rbits) /\ ev.out = StrZero), "f(zero) is not zero">>,
         \* an integer argument is its own round/floor/ceiling
         <<(decided /\ IsIntN(m)) => ev.rbits = ev.bits, "f(integer) is not that integer">>,
-        <<(decided /\ IsIntN(m) /\ E.k = "exact") => AllOuts(ev, LAMBDA o : o = E.str), "f(integer) is not that integer (string)">>,
-        <<(decided /\ IsIntN(m) /\ E.k = "int15") => AllOuts(ev, LAMBDA o : AgreesTo15(o, E.str)), "f(integer) is not that integer (15 digits)">>,
+        <<(decided /\ IsIntN(m) /\ E.k = "exact") => ev.out = E.str, "f(integer) is not that integer (string)">>,
+        <<(decided /\ IsIntN(m) /\ E.k = "int15") => AgreesTo15(ev.out, E.str), "f(integer) is not that integer (15 digits)">>,
         \* a non-integer argument: the integer of XPath 4.4
-        <<(decided /\ ~IsIntN(m)) => AllOuts(ev, LAMBDA o : o = IntString(R)), "not the integer XPath 4.4 prescribes">>,
+        <<(decided /\ ~IsIntN(m)) => ev.out = IntString(R), "not the integer XPath 4.4 prescribes">>,
         <<(decided /\ ~IsIntN(m) /\ R.ip # <<>>) => ev.rbits = BitsOf([neg |-> R.neg, ip |-> R.ip, fp |-> <<>>]), "result double is not the integer XPath 4.4 prescribes">>,
         <<(decided /\ ~IsIntN(m) /\ R.ip = <<>>) => BIsZero(ev.rbits), "result is not zero">>,
         <<(decided /\ ~IsIntN(m) /\ R.ip = <<>> /\ f = "round") => ZeroSign(ev, R.neg), "round gives the wrong zero (an argument in [-0.5, -0] gives negative zero)">>,
-        <<(num /\ ~decided /\ ~zeroArg /\ ~Overflows(m)) => AllOuts(ev, LAMBDA o : IsIntString(o)), "result is not an integer string">>,
-        <<SameOuts(ev), "conversion paths disagree">>,
+        <<(num /\ ~decided /\ ~zeroArg /\ ~Overflows(m)) => IsIntString(ev.out), "result is not an integer string">>,
         <<Has(ev, "bitsx") => (ev.bitsx = ev.rbits \/ (BIsNaN(ev.bitsx) /\ BIsNaN(ev.rbits))), "XPath function differs from DoubleSupport">>
      >>
+FnChecksIn(ev) ==
+  IF ~IsNumber(ev.in) THEN FnChecksM(ev, ev.dir, FALSE, NoNumeral, NotExact, [k |-> "exact", str |-> StrNaN])
+  ELSE LET m == Norm(Parse(ev.in))
+           x == ExactInfo(m)
+       IN FnChecksM(ev, ev.dir, TRUE, m, x, SnExpectM(m, x))
 
 C18Step(s, ev) ==
   LET why == IF Has(ev, "crash") THEN "the process died: " \o ev.crash
